@@ -20,7 +20,8 @@ OUTCOMES = ('success', 'success-none-new', 'failure', 'invalid')
 class SchedAdapter:
     def __init__(self, desc, targets, props, reqs=2, mode='ample',
                  req_menu=None, outcomes=OUTCOMES, max_workers=2,
-                 max_copies=2, double_reply=False):
+                 max_copies=2, double_reply=False, revs=None, life=False, poll=False,
+                 max_life=2):
         self.w = PipeWorld(desc, targets, mode=mode)
         self.eng = self.w.eng
         self.props = set(props)
@@ -30,6 +31,10 @@ class SchedAdapter:
         self.max_workers = max_workers
         self.max_copies = max_copies
         self.double_reply = double_reply
+        self.revs = revs or ('r1',)
+        self.life = life
+        self.poll = poll
+        self.max_life = max_life
         self.req_menu = req_menu or self.default_req_menu(targets)
         self.anc = {t: self.eng.ancestry(self.eng.alg_of(t)) for t in self.eng.tags()}
         self.desc = {t: self.eng.descendants(t) for t in self.eng.tags()}
@@ -159,9 +164,17 @@ class SchedAdapter:
                 evs.append(('reply', j, t, r, o))
         if self.mode == 'explicit':
             if len(s['workers']) < self.max_workers:
-                evs.append(('reg',))
+                for rev in self.revs:
+                    evs.append(('reg',) if len(self.revs) == 1 else ('reg', rev))
             for i in range(len(s['workers'])):
                 evs.append(('drop', i))
+        if self.poll:
+            for rev in self.revs:
+                evs.append(('poll', rev))
+        if self.life and s['mon'].get('life', 0) < self.max_life:
+            evs.append(('life', 'inactive' if s['active'] else 'active'))
+            if s['rev'] != self.revs[-1]:
+                evs.append(('life', 'reload', self.revs[-1]))
         return evs
 
     def apply(self, ev):
@@ -183,7 +196,11 @@ class SchedAdapter:
                 new = set(ev[5])
             w.ev_reply(idx[0], o, new)
         elif kind == 'reg':
-            w.ev_reg()
+            w.ev_reg(ev[1] if len(ev) > 1 else None)
+        elif kind == 'poll':
+            w.ev_poll(ev[1])
+        elif kind == 'life':
+            w.ev_life(*ev[1:])
         elif kind == 'drop':
             w.ev_drop(ev[1])
         else:
@@ -305,6 +322,10 @@ class SchedAdapter:
             self.mon_c04(s, ev, ns, report)
         if 'C05' in self.props:
             self.mon_c05(s, ev, before, after, report)
+        if 'C11' in self.props:
+            self.mon_c11(mon, s, ev, ns, report)
+        if ev[0] == 'life':
+            mon['life'] = mon.get('life', 0) + 1
         return mon
 
     # ---- C01
@@ -488,3 +509,78 @@ class SchedAdapter:
             report('C05/history',
                    f'{o} of {j}[{t}] run {r} recorded as '
                    f'{[(c["status"]) for c in apps]}')
+
+    # ---- C11
+    def mon_c11(self, mon, s, ev, ns, report):
+        import dawgie.context
+        w = self.w
+        rev_now = dawgie.context.git_rev
+        active_before = s['active'] if ev[0] != 'life' else None
+        puts = {}
+        for e in self.log:
+            if e[0] == 'put':
+                puts.setdefault((e[1], e[2]), []).append(e[3])
+        for o in w.obs:
+            if o[0] == 'task':
+                _t, cid, jobid, tgt, runid, factory, crev, clost, active, ntasks = o
+                if crev != rev_now:
+                    report('C11/task-to-stale-revision', f'{jobid}[{tgt}] sent to a worker registered with {crev}, pipeline runs {rev_now}')
+                if clost:
+                    report('C11/task-to-dropped-worker', f'{jobid}[{tgt}] written to a connection that is gone')
+                if ntasks > 1:
+                    report('C11/second-task-to-one-worker', f'{jobid}[{tgt}] is task number {ntasks} of one registration')
+                if not active:
+                    report('C11/task-while-inactive', f'{jobid}[{tgt}] sent while the pipeline is not active')
+                kind = self.eng.kind(jobid)
+                fac = (f'{self.eng.pkg}.{jobid.split(".")[0]}', kind)
+                if tuple(factory) != fac:
+                    report('C11/message-factory', f'{jobid}[{tgt}] carries factory {factory}, expected {fac}')
+                if kind == 'regress' and runid != 0:
+                    report('C11/regression-run-id', f'{jobid}[{tgt}] is a regression but carries run id {runid}')
+                if kind == 'analysis' and tgt != '__all__':
+                    report('C11/message-target', f'analysis {jobid} sent with target {tgt}')
+        # run ids: reuse the id the triggering event carried, else draw db.next()
+        if ev[0] == 'tick':
+            want_next = 0
+            for e in self.log:
+                if e[0] == 'batch':
+                    for tag, do in e[1]:
+                        rid_before = dict((t, r) for t, _a, _b, _c, _st, r, _e in s['nodes']).get(tag)
+                        carried = rid_before
+                        kind = self.eng.kind(tag)
+                        if carried is None:
+                            want_next += 1
+                        for t in do:
+                            got = puts.get((tag, t if kind != 'analysis' else '__all__'), [None])[0]
+                            exp = 0 if kind == 'regress' else (carried if carried is not None else w.store_next)
+                            if got != exp:
+                                report('C11/run-id/' + ('reused-instead-of-fresh' if carried is None else 'not-the-carried-id'),
+                                       f'{tag}[{t}] released with run id {got}, expected {exp} '
+                                       f'(triggering event carried {carried})')
+            if w.next_calls - mon.get('next_calls', 0) != want_next:
+                report('C11/run-id/draws', f'db.next() called {w.next_calls - mon.get("next_calls", 0)} times, '
+                                           f'{want_next} released algorithms had no run id')
+        mon['next_calls'] = 0
+        w.next_calls = 0
+        # unplaced tasks stay queued: conservation is C03's clause (ii), here:
+        # nothing is written at all while inactive except abort responses
+        if not w.fsm.active and ev[0] in ('tick', 'poll', 'reg'):
+            bad = [o for o in w.obs if o[0] in ('task', 'wait', 'proceed')]
+            if bad and not (ev[0] == 'reg'):
+                report('C11/traffic-while-inactive/' + bad[0][0], f'event {ev} while inactive wrote {bad[0][:3]}')
+        if ev[0] == 'life' and ev[1] == 'reload':
+            kept = [o for o in w.obs if o[0] in ('wait', 'task')]
+            if kept or farm._workers:
+                report('C11/workers-survive-reload', f'after reload: {len(farm._workers)} workers still registered, wrote {kept[:2]}')
+        if ev[0] == 'poll':
+            verdict = [o[0] for o in w.obs if o[0] in ('abort', 'proceed')]
+            should = 'proceed' if (ev[1] == rev_now and w.fsm.active) else 'abort'
+            if verdict[:1] != [should]:
+                report(f'C11/status-poll/{should}-expected', f'poll with revision {ev[1]} (pipeline {rev_now}, '
+                       f'active={w.fsm.active}) answered {verdict}')
+        if ev[0] == 'reg' and len(ev) > 1:
+            registered = len(ns['workers']) - len(s['workers'])
+            if ev[1] != rev_now and registered:
+                report('C11/stale-worker-registered', f'worker with revision {ev[1]} accepted, pipeline runs {rev_now}')
+            if ev[1] == rev_now and not registered:
+                report('C11/current-worker-refused', f'worker with revision {ev[1]} refused')
